@@ -74,6 +74,11 @@ def gen_spec(rnd, shape, tool, comp, bs, exportable, notail, devblk, big=False):
             add("d/f%02d" % i, "file", kind=["rand", "text", "zero", "mixed", "same"][i % 5], size=sz, seed=i)
         add("d/dup1", "file", kind="text", size=bs + 100, seed=99)
         add("d/dup2", "file", kind="text", size=bs + 100, seed=99)
+        # runs of one repeated non-zero block, a shorter file directly before a longer one: the duplicate search of
+        # the block writer matches the new file's blocks against a run that ends in the file's own first blocks
+        add("r", "dir")
+        for nm, sz in (("a", bs), ("b", 3 * bs), ("c", 2 * bs), ("d", 2 * bs + 100), ("e", 5 * bs), ("f", bs)):
+            add("r/" + nm, "file", kind="same", size=sz, seed=0xAA)
         add("d/sl", "slink", target="../d/f01", mode=0o777)
         add("d/longsl", "slink", target="x" * 3000, mode=0o777)
         add("d/blk", "blk", dev=(8, 1))
